@@ -9,14 +9,28 @@
 // the module's IsValid... function each of them carries), Nil a nil element.  Every call gets freshly
 // allocated rule objects.  The rule ID is derived from the token ("R1@r1"), i.e. from the semantic fields.
 //
+// NEAR-EQUAL VARIANTS: a token "R2a" / "R2b" is the rule of "R2" with ONE field changed slightly (a fractional
+// threshold, +-1 on an integer field, a flipped enum); the scenario's "var" selects which entry of the module's delta
+// table (near()) it carries.  Every field the module's rule equality / controller reuse looks at has an entry.  A
+// variant is a DIFFERENT rule (own ID "R2a@r1"): after a reload R2 -> R2a the getters must report R2a, a refusal must
+// name R2a, and the probing traffic tells the variants apart where their behaviour differs (an error-count breaker
+// with threshold 3 / 3.5 / 2 opens on the 3rd / 4th / 2nd error).  The probe table written into the "new" event is
+// computed per scenario from the delta table.
+//
 // usage: c13 <scenarios.ndjson> <trace.ndjson>
+//
+//	c13 -describe     prints {module: {base token: [delta names]}} (the check sizes its scenario families with it)
+//	c13 -calibrate    loads every token alone on a fresh resource and compares the probes it refuses with the
+//	                  declared table (maintenance aid for the delta tables; not used for verdicts)
 package main
 
 import (
+	"encoding/json"
 	"errors"
 	"fmt"
 	"math"
 	"os"
+	"sort"
 	"strings"
 
 	"github.com/alibaba/sentinel-golang/api"
@@ -69,12 +83,101 @@ func parseID(s string) el {
 func variant(tok string, n int64) int64 { return ((vars[tok] % n) + n) % n }
 
 // ---------------------------------------------------------------------------------------------------
+// near-equal variants
+
+var nearToks = []string{"R1a", "R1b", "R2a", "R2b", "R3a", "R3b"}
+
+func isNear(tok string) bool { return len(tok) == 3 && tok[0] == 'R' }
+func baseTok(tok string) string {
+	if isNear(tok) {
+		return tok[:2]
+	}
+	return tok
+}
+
+// one entry of a module's delta table: the base token, the field change (name), and the probes the changed rule
+// refuses: same = exactly those of the base rule, otherwise the list blocks
+type nearDelta struct {
+	base, name string
+	same       bool
+	blocks     []string
+}
+
+func same(base, name string) nearDelta { return nearDelta{base: base, name: name, same: true} }
+func blk(base, name string, probes ...string) nearDelta {
+	return nearDelta{base: base, name: name, blocks: probes}
+}
+
+func hasNear(m module, base string) bool {
+	for _, d := range m.near() {
+		if d.base == base {
+			return true
+		}
+	}
+	return false
+}
+
+// index (into m.near()) of the delta a near token carries in the running scenario; -1 for any other token
+func nearIdx(m module, tok string) int {
+	if !isNear(tok) {
+		return -1
+	}
+	var idx []int
+	for i, d := range m.near() {
+		if d.base == tok[:2] {
+			idx = append(idx, i)
+		}
+	}
+	if len(idx) == 0 {
+		hx.Fatal("token %s: the module has no near-equal variant of %s", tok, tok[:2])
+	}
+	return idx[variant(tok, int64(len(idx)))]
+}
+
+// the probe table of the running scenario: the module's table of the base tokens + the near tokens
+func scenarioProbeTable(m module) map[string][]string {
+	t := map[string][]string{}
+	for p, toks := range m.probeTable() {
+		t[p] = append([]string{}, toks...)
+	}
+	for _, tok := range nearToks {
+		if !hasNear(m, tok[:2]) {
+			continue
+		}
+		d := m.near()[nearIdx(m, tok)]
+		var ps []string
+		if d.same {
+			for p, toks := range m.probeTable() {
+				for _, x := range toks {
+					if x == d.base {
+						ps = append(ps, p)
+					}
+				}
+			}
+		} else {
+			ps = d.blocks
+		}
+		for _, p := range ps {
+			if _, ok := t[p]; !ok {
+				hx.Fatal("delta %q of %s: unknown probe %q", d.name, d.base, p)
+			}
+			t[p] = append(t[p], tok)
+		}
+	}
+	for p := range t {
+		sort.Strings(t[p])
+	}
+	return t
+}
+
+// ---------------------------------------------------------------------------------------------------
 // the module adapters
 
 type module interface {
 	desc() (perRes, rejects, ordered, resGetter bool)
 	resources() []string
 	probeTable() map[string][]string
+	near() []nearDelta
 	nvariants() int64
 	load(list []el) (bool, error)
 	loadRes(res string, list []el) (bool, error)
@@ -151,11 +254,59 @@ func (flowMod) desc() (bool, bool, bool, bool) { return true, false, true, true 
 func (flowMod) resources() []string            { return []string{"r1", "r2"} }
 func (flowMod) nvariants() int64               { return 16 }
 func (flowMod) probeTable() map[string][]string {
-	return map[string][]string{"p1": {"R1"}, "p2": {"R2"}, "p3": {"R3"}, "all": {"R1", "R2", "R3"}, "pinv": {"I1", "I2", "I3", "Nil"}}
+	return map[string][]string{"p1": {"R1"}, "p1m": {}, "p2": {"R2"}, "p3": {"R3"}, "all": {"R1", "R2", "R3"}, "pinv": {"I1", "I2", "I3", "Nil"}}
 }
-func (flowMod) mk(e el) *flow.Rule {
+
+// every field flow.Rule.isEqualsTo / isStatReusable looks at (Resource is the element's resource).  Fields a strategy
+// does not read (warm-up / queueing / memory fields of a Direct+Reject rule) still make a different rule.
+var flowNear = []struct {
+	nearDelta
+	f func(r *flow.Rule)
+}{
+	// R1 = Direct/Reject, 5 per 1000 ms: p1 asks for 6, p1m for 5, "all" for 1 + 6
+	{blk("R1", "Threshold 6", "all"), func(r *flow.Rule) { r.Threshold = 6 }},
+	{blk("R1", "Threshold 4", "p1", "p1m", "all"), func(r *flow.Rule) { r.Threshold = 4 }},
+	{same("R1", "Threshold 5.5"), func(r *flow.Rule) { r.Threshold = 5.5 }},
+	{same("R1", "StatIntervalInMs 2000"), func(r *flow.Rule) { r.StatIntervalInMs = 2000 }},
+	{same("R1", "MaxQueueingTimeMs 1"), func(r *flow.Rule) { r.MaxQueueingTimeMs = 1 }},
+	{same("R1", "WarmUpPeriodSec 1"), func(r *flow.Rule) { r.WarmUpPeriodSec = 1 }},
+	{same("R1", "WarmUpColdFactor 2"), func(r *flow.Rule) { r.WarmUpColdFactor = 2 }},
+	{same("R1", "LowMemUsageThreshold 1"), func(r *flow.Rule) { r.LowMemUsageThreshold = 1 }},
+	{same("R1", "HighMemUsageThreshold 1"), func(r *flow.Rule) { r.HighMemUsageThreshold = 1 }},
+	{same("R1", "MemLowWaterMarkBytes 1"), func(r *flow.Rule) { r.MemLowWaterMarkBytes = 1 }},
+	{same("R1", "MemHighWaterMarkBytes 1"), func(r *flow.Rule) { r.MemHighWaterMarkBytes = 1 }},
+	// R2 = WarmUp/Reject 100 on the statistics of the associated resource <res>_a (p2 / all make it pass 100)
+	{same("R2", "Threshold 101"), func(r *flow.Rule) { r.Threshold = 101 }},
+	{same("R2", "Threshold 99"), func(r *flow.Rule) { r.Threshold = 99 }},
+	{same("R2", "WarmUpPeriodSec 11"), func(r *flow.Rule) { r.WarmUpPeriodSec = 11 }},
+	{same("R2", "WarmUpColdFactor 2"), func(r *flow.Rule) { r.WarmUpColdFactor = 2 }},
+	{blk("R2", "RefResource _b"), func(r *flow.Rule) { r.RefResource = r.Resource + "_b" }},
+	{blk("R2", "RelationStrategy CurrentResource"), func(r *flow.Rule) { r.RelationStrategy = flow.CurrentResource }},
+	{same("R2", "TokenCalculateStrategy Direct"), func(r *flow.Rule) { r.TokenCalculateStrategy = flow.Direct }},
+	// R3 = Direct/Throttling 10 per 10 s, no queueing: p3 sends two requests at one instant
+	{same("R3", "Threshold 11"), func(r *flow.Rule) { r.Threshold = 11 }},
+	{same("R3", "Threshold 9"), func(r *flow.Rule) { r.Threshold = 9 }},
+	{same("R3", "MaxQueueingTimeMs 1"), func(r *flow.Rule) { r.MaxQueueingTimeMs = 1 }},
+	{same("R3", "StatIntervalInMs 9000"), func(r *flow.Rule) { r.StatIntervalInMs = 9000 }},
+	{blk("R3", "ControlBehavior Reject"), func(r *flow.Rule) { r.ControlBehavior = flow.Reject }},
+}
+
+func (flowMod) near() []nearDelta {
+	out := make([]nearDelta, len(flowNear))
+	for i, d := range flowNear {
+		out[i] = d.nearDelta
+	}
+	return out
+}
+func (m flowMod) mk(e el) *flow.Rule {
 	res := cres(e.Res)
 	r := &flow.Rule{ID: id(e), Resource: res}
+	if i := nearIdx(m, e.Tok); i >= 0 {
+		r = m.mk(el{baseTok(e.Tok), e.Res})
+		r.ID = id(e)
+		flowNear[i].f(r)
+		return r
+	}
 	switch e.Tok {
 	case "Nil":
 		return nil
@@ -264,6 +415,11 @@ func (flowMod) probe(abs string) []hx.M {
 	a := &answer{"pass"}
 	one(a, 6)
 	out = append(out, pr(abs, "p1", a))
+	// p1m: 5 tokens at once on an idle resource: only a threshold below 5 objects
+	adv(20000)
+	a = &answer{"pass"}
+	one(a, 5)
+	out = append(out, pr(abs, "p1m", a))
 	// p2: the associated resource is busy: only the rule bound to its statistics objects
 	adv(20000)
 	a = &answer{"pass"}
@@ -298,10 +454,18 @@ func (isoMod) desc() (bool, bool, bool, bool) { return true, false, true, true }
 func (isoMod) resources() []string            { return []string{"r1", "r2"} }
 func (isoMod) nvariants() int64               { return 3 }
 func (isoMod) probeTable() map[string][]string {
-	return map[string][]string{"p1": {"R1"}, "p2": {"R1", "R2"}, "p3": {"R1", "R2", "R3"}, "pinv": {"I1", "I2", "I3", "Nil"}}
+	return map[string][]string{"p1": {"R1"}, "p2": {"R1", "R2"}, "p3": {"R1", "R2", "R3"}, "p4": {"R1", "R2", "R3"}, "pinv": {"I1", "I2", "I3", "Nil"}}
 }
-func (isoMod) mk(e el) *isolation.Rule {
+
+// isolation has no rule equality of its own (DeepEqual of the lists only) and one numeric field: thresholds 1 / 2 / 3
+// are the base tokens, 4 is the only neighbour that is not another token
+func (isoMod) near() []nearDelta { return []nearDelta{blk("R3", "Threshold 4", "p4")} }
+func (m isoMod) mk(e el) *isolation.Rule {
 	r := &isolation.Rule{ID: id(e), Resource: cres(e.Res), MetricType: isolation.Concurrency}
+	if i := nearIdx(m, e.Tok); i >= 0 {
+		r.Threshold = 4
+		return r
+	}
 	switch e.Tok {
 	case "Nil":
 		return nil
@@ -355,11 +519,11 @@ func (isoMod) getRes(res string) []el {
 func (isoMod) probe(abs string) []hx.M {
 	res := cres(abs)
 	var out []hx.M
-	// p<k>: k+1 tokens at once with nothing in flight: refused by the rules with threshold <= k; pinv: 1 token
+	// p<k>: k+1 tokens at once with nothing in flight: refused by the rules with threshold <= k (p4 tells 3 from 4); pinv: 1 token
 	for _, p := range []struct {
 		name  string
 		batch uint32
-	}{{"p1", 2}, {"p2", 3}, {"p3", 4}, {"pinv", 1}} {
+	}{{"p1", 2}, {"p2", 3}, {"p3", 4}, {"p4", 5}, {"pinv", 1}} {
 		adv(20000)
 		a := &answer{"pass"}
 		e, by := entry(res, abs, api.WithBatchCount(p.batch))
@@ -379,10 +543,55 @@ func (hotMod) desc() (bool, bool, bool, bool) { return true, false, true, true }
 func (hotMod) resources() []string            { return []string{"r1", "r2"} }
 func (hotMod) nvariants() int64               { return 9 }
 func (hotMod) probeTable() map[string][]string {
-	return map[string][]string{"p1": {"R1"}, "p2": {"R2"}, "p3": {"R3"}, "all": {"R1", "R2", "R3"}, "pinv": {"I1", "I2", "I3", "Nil"}}
+	return map[string][]string{"p1": {"R1"}, "p2": {"R2"}, "p3": {"R3"}, "all": {"R1", "R2", "R3"},
+		"p1x2": {"R1"}, "p2x2": {"R2"}, "p3x2": {"R3"}, "pinv": {"I1", "I2", "I3", "Nil"}}
 }
-func (hotMod) mk(e el) *hotspot.Rule {
+
+// every field hotspot.Rule.Equals / IsStatReusable looks at (ParamIndex cannot change alone: an index together with a
+// key is invalid).  A threshold of 1 admits the single request of p<k>; p<k>x2 observes the SECOND of two requests at
+// one instant, which a threshold of 1 refuses as well.
+var hotNear = []struct {
+	nearDelta
+	f func(r *hotspot.Rule)
+}{
+	// R1 = QPS/Reject on attachment k1, threshold 0, SpecificItems nil
+	{blk("R1", "Threshold 1", "p1x2"), func(r *hotspot.Rule) { r.Threshold = 1 }},
+	{same("R1", "BurstCount 1"), func(r *hotspot.Rule) { r.BurstCount = 1 }},
+	{same("R1", "ParamsMaxCapacity 1"), func(r *hotspot.Rule) { r.ParamsMaxCapacity = 1 }},
+	{same("R1", "DurationInSec 2"), func(r *hotspot.Rule) { r.DurationInSec = 2 }},
+	{same("R1", "SpecificItems {z:5}"), func(r *hotspot.Rule) { r.SpecificItems = map[interface{}]int64{"z": 5} }},
+	{blk("R1", "SpecificItems {x:1}", "p1x2"), func(r *hotspot.Rule) { r.SpecificItems = map[interface{}]int64{"x": 1} }},
+	{same("R1", "ControlBehavior Throttling"), func(r *hotspot.Rule) { r.ControlBehavior = hotspot.Throttling }},
+	{same("R1", "MetricType Concurrency"), func(r *hotspot.Rule) { r.MetricType = hotspot.Concurrency }},
+	{blk("R1", "ParamKey k1x"), func(r *hotspot.Rule) { r.ParamKey = "k1x" }},
+	// R2 = QPS/Throttling on k2, threshold 0, SpecificItems {y:3}
+	{same("R2", "MaxQueueingTimeMs 1"), func(r *hotspot.Rule) { r.MaxQueueingTimeMs = 1 }},
+	{blk("R2", "Threshold 1", "p2x2"), func(r *hotspot.Rule) { r.Threshold = 1 }},
+	{same("R2", "DurationInSec 2"), func(r *hotspot.Rule) { r.DurationInSec = 2 }},
+	{same("R2", "SpecificItems {y:4}"), func(r *hotspot.Rule) { r.SpecificItems = map[interface{}]int64{"y": 4} }},
+	// R3 = QPS/Reject on k3, threshold 1000, SpecificItems {x:0}
+	{same("R3", "BurstCount 1"), func(r *hotspot.Rule) { r.BurstCount = 1 }},
+	{same("R3", "Threshold 999"), func(r *hotspot.Rule) { r.Threshold = 999 }},
+	{blk("R3", "SpecificItems {x:1}", "p3x2"), func(r *hotspot.Rule) { r.SpecificItems = map[interface{}]int64{"x": 1} }},
+	{same("R3", "DurationInSec 2"), func(r *hotspot.Rule) { r.DurationInSec = 2 }},
+	{same("R3", "ParamsMaxCapacity 1"), func(r *hotspot.Rule) { r.ParamsMaxCapacity = 1 }},
+}
+
+func (hotMod) near() []nearDelta {
+	out := make([]nearDelta, len(hotNear))
+	for i, d := range hotNear {
+		out[i] = d.nearDelta
+	}
+	return out
+}
+func (m hotMod) mk(e el) *hotspot.Rule {
 	r := &hotspot.Rule{ID: id(e), Resource: cres(e.Res), MetricType: hotspot.QPS, DurationInSec: 1}
+	if i := nearIdx(m, e.Tok); i >= 0 {
+		r = m.mk(el{baseTok(e.Tok), e.Res})
+		r.ID = id(e)
+		hotNear[i].f(r)
+		return r
+	}
 	switch e.Tok {
 	case "Nil":
 		return nil
@@ -468,6 +677,22 @@ func (hotMod) probe(abs string) []hx.M {
 		}
 		out = append(out, pr(abs, p.name, a))
 	}
+	// p<k>x2: two requests carrying k<k> at one instant; the answer is that of the SECOND (what refuses the first one
+	// refuses the second as well, so the first rule in list order that objects is still the one named)
+	for _, p := range []struct{ name, key string }{{"p1x2", "k1"}, {"p2x2", "k2"}, {"p3x2", "k3"}} {
+		adv(20000)
+		at := map[interface{}]interface{}{p.key: "x"}
+		if e, _ := entry(res, abs, api.WithAttachments(at)); e != nil {
+			e.Exit()
+		}
+		a := &answer{"pass"}
+		e, by := entry(res, abs, api.WithAttachments(at))
+		a.see(by)
+		if e != nil {
+			e.Exit()
+		}
+		out = append(out, pr(abs, p.name, a))
+	}
 	return out
 }
 
@@ -478,7 +703,53 @@ func (cbMod) desc() (bool, bool, bool, bool) { return true, false, true, true }
 func (cbMod) resources() []string            { return []string{"r1", "r2"} }
 func (cbMod) nvariants() int64               { return 6 }
 func (cbMod) probeTable() map[string][]string {
-	return map[string][]string{"p1": {"R1"}, "p2": {"R2"}, "p3": {"R3"}, "all": {"R1", "R2", "R3"}, "pinv": {"I1", "I2", "I3", "Nil"}}
+	return map[string][]string{"p1": {"R1"}, "p2": {"R2"}, "p3": {"R3"}, "all": {"R1", "R2", "R3"},
+		"e2": {"R3"}, "e4": {"R2", "R3"}, "pinv": {"I1", "I2", "I3", "Nil"}}
+}
+
+// every field cb.Rule.isEqualsTo / isStatReusable looks at.  Errors seen by the probes: pinv 1, e2 2, p2 3 (after 4
+// good requests), e4 4, "all" 4 (slow as well); p3 = one good + one failing request; p1 = one slow request.
+var cbNear = []struct {
+	nearDelta
+	f func(r *cb.Rule)
+}{
+	// R1 = slow request ratio 1.0 of >= 1 requests, slow = more than 100 ms (p1 / all take 200 ms)
+	{same("R1", "Threshold 0.5"), func(r *cb.Rule) { r.Threshold = 0.5 }},
+	{same("R1", "MaxAllowedRtMs 101"), func(r *cb.Rule) { r.MaxAllowedRtMs = 101 }},
+	{same("R1", "MaxAllowedRtMs 99"), func(r *cb.Rule) { r.MaxAllowedRtMs = 99 }},
+	{same("R1", "RetryTimeoutMs 1001"), func(r *cb.Rule) { r.RetryTimeoutMs = 1001 }},
+	{same("R1", "RetryTimeoutMs 999"), func(r *cb.Rule) { r.RetryTimeoutMs = 999 }},
+	{blk("R1", "MinRequestAmount 2", "all"), func(r *cb.Rule) { r.MinRequestAmount = 2 }},
+	{same("R1", "StatIntervalMs 2000"), func(r *cb.Rule) { r.StatIntervalMs = 2000 }},
+	{same("R1", "StatSlidingWindowBucketCount 2"), func(r *cb.Rule) { r.StatSlidingWindowBucketCount = 2 }},
+	{same("R1", "ProbeNum 1"), func(r *cb.Rule) { r.ProbeNum = 1 }},
+	{blk("R1", "Strategy ErrorRatio", "pinv", "all", "e2", "e4"), func(r *cb.Rule) { r.Strategy = cb.ErrorRatio }},
+	// R2 = error count 3: the breaker opens when the count reaches ceil(threshold)
+	{same("R2", "Threshold 2.5"), func(r *cb.Rule) { r.Threshold = 2.5 }},
+	{blk("R2", "Threshold 3.5", "all", "e4"), func(r *cb.Rule) { r.Threshold = 3.5 }},
+	{blk("R2", "Threshold 2", "e2", "p2", "all", "e4"), func(r *cb.Rule) { r.Threshold = 2 }},
+	{blk("R2", "Threshold 4", "all", "e4"), func(r *cb.Rule) { r.Threshold = 4 }},
+	{same("R2", "RetryTimeoutMs 1001"), func(r *cb.Rule) { r.RetryTimeoutMs = 1001 }},
+	{same("R2", "MinRequestAmount 2"), func(r *cb.Rule) { r.MinRequestAmount = 2 }},
+	{same("R2", "StatIntervalMs 2000"), func(r *cb.Rule) { r.StatIntervalMs = 2000 }},
+	{same("R2", "StatSlidingWindowBucketCount 2"), func(r *cb.Rule) { r.StatSlidingWindowBucketCount = 2 }},
+	{same("R2", "ProbeNum 1"), func(r *cb.Rule) { r.ProbeNum = 1 }},
+	// R3 = error ratio 0.5 of >= 2 requests
+	{blk("R3", "Threshold 0.6", "all", "e2", "e4"), func(r *cb.Rule) { r.Threshold = 0.6 }},
+	{blk("R3", "Threshold 0.4", "p2", "p3", "all", "e2", "e4"), func(r *cb.Rule) { r.Threshold = 0.4 }},
+	{blk("R3", "MinRequestAmount 3", "all", "e4"), func(r *cb.Rule) { r.MinRequestAmount = 3 }},
+	{blk("R3", "MinRequestAmount 1", "pinv", "p3", "all", "e2", "e4"), func(r *cb.Rule) { r.MinRequestAmount = 1 }},
+	{same("R3", "RetryTimeoutMs 999"), func(r *cb.Rule) { r.RetryTimeoutMs = 999 }},
+	{same("R3", "StatIntervalMs 2000"), func(r *cb.Rule) { r.StatIntervalMs = 2000 }},
+	{blk("R3", "Strategy ErrorCount", "p2", "p3", "all", "e2", "e4"), func(r *cb.Rule) { r.Strategy = cb.ErrorCount }},
+}
+
+func (cbMod) near() []nearDelta {
+	out := make([]nearDelta, len(cbNear))
+	for i, d := range cbNear {
+		out[i] = d.nearDelta
+	}
+	return out
 }
 func cbRule(e el, res string) *cb.Rule {
 	r := &cb.Rule{Id: id(e), Resource: res, RetryTimeoutMs: 1000, StatIntervalMs: 1000, MinRequestAmount: 1}
@@ -495,6 +766,12 @@ func cbRule(e el, res string) *cb.Rule {
 func (cbMod) mk(e el) *cb.Rule {
 	if e.Tok == "Nil" {
 		return nil
+	}
+	if i := nearIdx(cbMod{}, e.Tok); i >= 0 {
+		r := cbRule(el{baseTok(e.Tok), e.Res}, cres(e.Res))
+		r.Id = id(e)
+		cbNear[i].f(r)
+		return r
 	}
 	r := cbRule(e, cres(e.Res))
 	if e.Tok[0] == 'I' { // would open on the first error
@@ -585,31 +862,31 @@ func (cbMod) probe(abs string) []hx.M {
 		out = append(out, pr(abs, name, a))
 		recoverAll()
 	}
-	run("p1", func(a *answer) { req(a, 200, false) })
-	run("p2", func(a *answer) {
-		for i := 0; i < 4; i++ {
-			req(a, 0, false)
-		}
-		for i := 0; i < 3; i++ {
-			req(a, 0, true)
-		}
-	})
-	run("p3", func(a *answer) { req(a, 0, false); req(a, 0, true) })
-	run("all", func(a *answer) { // four requests in flight together, all slow and failing
+	// n requests in flight together, the last nfail of them fail, each takes rt ms: every breaker of the resource sees
+	// every completion (a breaker that opens on the 2nd error cannot hide the 3rd one from its neighbour)
+	together := func(a *answer, n, nfail int, rt int64) {
 		var es []*base.SentinelEntry
-		for i := 0; i < 4; i++ {
+		for i := 0; i < n; i++ {
 			e, by := entry(res, abs)
 			a.see(by)
 			if e != nil {
 				es = append(es, e)
 			}
 		}
-		adv(200)
-		for _, e := range es {
-			api.TraceError(e, errBiz)
+		adv(rt)
+		for i, e := range es {
+			if i >= len(es)-nfail {
+				api.TraceError(e, errBiz)
+			}
 			e.Exit()
 		}
-	})
+	}
+	run("p1", func(a *answer) { req(a, 200, false) })
+	run("p2", func(a *answer) { together(a, 7, 3, 0) }) // four good requests, then three errors
+	run("p3", func(a *answer) { req(a, 0, false); req(a, 0, true) })
+	run("all", func(a *answer) { together(a, 4, 4, 200) }) // four requests, all slow and failing
+	run("e2", func(a *answer) { together(a, 2, 2, 0) })    // two errors
+	run("e4", func(a *answer) { together(a, 4, 4, 0) })    // four errors
 	run("pinv", func(a *answer) { req(a, 0, true) })
 	return out
 }
@@ -621,10 +898,44 @@ func (sysMod) desc() (bool, bool, bool, bool) { return false, false, false, fals
 func (sysMod) resources() []string            { return []string{"sys"} }
 func (sysMod) nvariants() int64               { return 4 }
 func (sysMod) probeTable() map[string][]string {
-	return map[string][]string{"p1": {"R1"}, "p2": {"R2"}, "p3": {"R3"}, "all": {"R1", "R2", "R3"}, "pinv": {"I1", "I2", "I3", "Nil"}}
+	return map[string][]string{"p1": {"R1"}, "p2": {"R2"}, "p3": {"R3"}, "p3lo": {"R3"}, "all": {"R1", "R2", "R3"}, "pinv": {"I1", "I2", "I3", "Nil"}}
 }
-func (sysMod) mk(e el) *system.Rule {
+
+// system has no rule equality of its own (DeepEqual of the lists only); the fields of a rule are the metric type and
+// the trigger count.  p1: the 4th inbound request of a second; p2: the 3rd concurrent one; p3 / p3lo: load 10 / 5.2.
+var sysNear = []struct {
+	nearDelta
+	f func(r *system.Rule)
+}{
+	// R1 = inbound QPS 3 (refuses while the pass QPS is not below the trigger count)
+	{same("R1", "TriggerCount 2.5"), func(r *system.Rule) { r.TriggerCount = 2.5 }},
+	{blk("R1", "TriggerCount 4"), func(r *system.Rule) { r.TriggerCount = 4 }},
+	{blk("R1", "TriggerCount 2", "p1", "p2", "all"), func(r *system.Rule) { r.TriggerCount = 2 }},
+	// R2 = concurrency 2
+	{same("R2", "TriggerCount 1.5"), func(r *system.Rule) { r.TriggerCount = 1.5 }},
+	{blk("R2", "TriggerCount 3"), func(r *system.Rule) { r.TriggerCount = 3 }},
+	{blk("R2", "TriggerCount 1", "p2", "all"), func(r *system.Rule) { r.TriggerCount = 1 }},
+	// R3 = load 5 (refuses while the load is above the trigger count)
+	{blk("R3", "TriggerCount 5.5", "p3", "all"), func(r *system.Rule) { r.TriggerCount = 5.5 }},
+	{same("R3", "TriggerCount 4.5"), func(r *system.Rule) { r.TriggerCount = 4.5 }},
+	{blk("R3", "MetricType AvgRT"), func(r *system.Rule) { r.MetricType = system.AvgRT }},
+}
+
+func (sysMod) near() []nearDelta {
+	out := make([]nearDelta, len(sysNear))
+	for i, d := range sysNear {
+		out[i] = d.nearDelta
+	}
+	return out
+}
+func (m sysMod) mk(e el) *system.Rule {
 	r := &system.Rule{ID: id(e), Strategy: system.NoAdaptive}
+	if i := nearIdx(m, e.Tok); i >= 0 {
+		r = m.mk(el{baseTok(e.Tok), e.Res})
+		r.ID = id(e)
+		sysNear[i].f(r)
+		return r
+	}
 	switch e.Tok {
 	case "Nil":
 		return nil
@@ -717,6 +1028,10 @@ func (sysMod) probe(abs string) []hx.M {
 		system_metric.SetSystemLoad(10)
 		return func() { system_metric.SetSystemLoad(0) }
 	})
+	run("p3lo", func(a *answer) func() {
+		system_metric.SetSystemLoad(5.2)
+		return func() { system_metric.SetSystemLoad(0) }
+	})
 	run("all", func(a *answer) func() {
 		passN(a, 1)
 		u := hold(a, 2)
@@ -736,12 +1051,64 @@ type outMod struct{}
 func (outMod) desc() (bool, bool, bool, bool) { return true, true, true, false }
 func (outMod) resources() []string            { return []string{"r1", "r2"} }
 func (outMod) nvariants() int64               { return 8 }
+
+// the probe counts the errors of node n1 until the node is ejected; e<k> = "ejected after at most k errors" (no rule
+// is named by an ejection, so these probes carry `hit' instead of `by').  R1 / R2 / R3 eject on the 1st / 2nd / 3rd
+// error, an invalid rule would eject on the 4th.
 func (outMod) probeTable() map[string][]string {
-	return map[string][]string{"p": {"R1", "R2", "R3"}}
+	inv := []string{"I1", "I2", "I3"}
+	return map[string][]string{"e0": {}, "e1": {"R1"}, "e2": {"R1", "R2"}, "e3": {"R1", "R2", "R3"}, "e4": append([]string{"R1", "R2", "R3"}, inv...)}
 }
-func (outMod) mk(e el) *outlier.Rule {
+
+// the fields of the embedded breaker rule that cb.Rule.isEqualsTo looks at (the node breakers are rebuilt through
+// cb.BuildResourceCircuitBreaker) and the fields of the outlier rule itself; need = errors until ejection as a function
+// of the base rule's count n (99 = never)
+var outNear = []struct {
+	name string
+	need func(n int) int
+	f    func(r *outlier.Rule)
+}{
+	{"Threshold +0.5", func(n int) int { return n + 1 }, func(r *outlier.Rule) { r.Threshold += 0.5 }},
+	{"Threshold -0.25", func(n int) int { return n }, func(r *outlier.Rule) { r.Threshold -= 0.25 }},
+	{"RetryTimeoutMs 1001", func(n int) int { return n }, func(r *outlier.Rule) { r.RetryTimeoutMs = 1001 }},
+	{"MinRequestAmount 2", func(n int) int {
+		if n < 2 {
+			return 2
+		}
+		return n
+	}, func(r *outlier.Rule) { r.MinRequestAmount = 2 }},
+	{"StatIntervalMs 2000", func(n int) int { return n }, func(r *outlier.Rule) { r.StatIntervalMs = 2000 }},
+	{"StatSlidingWindowBucketCount 2", func(n int) int { return n }, func(r *outlier.Rule) { r.StatSlidingWindowBucketCount = 2 }},
+	{"ProbeNum 1", func(n int) int { return n }, func(r *outlier.Rule) { r.ProbeNum = 1 }},
+	{"MaxEjectionPercent 0.9", func(n int) int { return 99 }, func(r *outlier.Rule) { r.MaxEjectionPercent = 0.9 }}, // 0.9 of one node = no node
+	{"RecoveryIntervalMs 1", func(n int) int { return n }, func(r *outlier.Rule) { r.RecoveryIntervalMs = 1 }},
+	{"MaxRecoveryAttempts 1", func(n int) int { return n }, func(r *outlier.Rule) { r.MaxRecoveryAttempts = 1 }},
+}
+
+func (outMod) near() []nearDelta {
+	var out []nearDelta
+	for n, b := range []string{"R1", "R2", "R3"} {
+		for _, d := range outNear {
+			var ps []string
+			for k := 1; k <= 4; k++ {
+				if d.need(n+1) <= k {
+					ps = append(ps, fmt.Sprintf("e%d", k))
+				}
+			}
+			out = append(out, blk(b, d.name, ps...))
+		}
+	}
+	return out
+}
+func (m outMod) mk(e el) *outlier.Rule {
 	if e.Tok == "Nil" {
 		return nil
+	}
+	if i := nearIdx(m, e.Tok); i >= 0 {
+		r := m.mk(el{baseTok(e.Tok), e.Res})
+		r.Id = id(e)
+		outNear[i%len(outNear)].f(r)
+		return r
 	}
 	c := &cb.Rule{Id: id(e), Resource: cres(e.Res), Strategy: cb.ErrorCount, RetryTimeoutMs: 1000, StatIntervalMs: 1000, MinRequestAmount: 1}
 	r := &outlier.Rule{Rule: c, MaxEjectionPercent: 1.0}
@@ -827,27 +1194,22 @@ func (outMod) probe(abs string) []hx.M {
 	}
 	// how many errors of node n1 does it take until the node is ejected?  (identifies the rule in force)
 	adv(20000)
-	a := &answer{"pass"}
-count:
+	need := 99
 	for k := 1; k <= 5; k++ {
 		if call(true) {
-			// the k-th call saw the node ejected after k-1 errors
-			switch k - 1 {
-			case 0:
-				a.by = "?ejected-before-any-error"
-			case 1, 2, 3:
-				a.by = fmt.Sprintf("R%d", k-1)
-			default:
-				a.by = "?I"
-			}
-			break count
+			need = k - 1 // the k-th call saw the node ejected after k-1 errors
+			break
 		}
 	}
 	adv(1500)
 	call(false) // recovery probe of the node
 	adv(1500)
 	call(false)
-	return []hx.M{pr(abs, "p", a)}
+	var out []hx.M
+	for k := 0; k <= 4; k++ {
+		out = append(out, hx.M{"res": abs, "p": fmt.Sprintf("e%d", k), "hit": need <= k})
+	}
+	return out
 }
 
 // ---------------------------------------------------------------------------------------------------
@@ -888,13 +1250,68 @@ func clearEverything() {
 	system_metric.SetSystemCpuUsage(0)
 }
 
-func main() {
-	if len(os.Args) < 3 {
-		hx.Fatal("usage: c13 scenarios.ndjson trace.ndjson")
+var mods = map[string]module{"flow": flowMod{}, "isolation": isoMod{}, "hotspot": hotMod{}, "circuitbreaker": cbMod{},
+	"system": sysMod{}, "outlier": outMod{}}
+
+// {module: {base token: [delta names]}}
+func describe() {
+	out := map[string]map[string][]string{}
+	for name, m := range mods {
+		out[name] = map[string][]string{"R1": {}, "R2": {}, "R3": {}}
+		for _, d := range m.near() {
+			out[name][d.base] = append(out[name][d.base], d.name)
+		}
 	}
-	scn, err := hx.ReadNDJSON[hx.M](os.Args[1])
-	if err != nil {
-		hx.Fatal("%v", err)
+	b, _ := json.Marshal(out)
+	fmt.Println(string(b))
+}
+
+// scenarios that load every token alone (whole-set) on a fresh resource: the probes it refuses must be those of the table
+func calibrationScenarios() []hx.M {
+	var scn []hx.M
+	n := int64(0)
+	names := []string{"flow", "isolation", "hotspot", "circuitbreaker", "system", "outlier"}
+	for _, name := range names {
+		m := mods[name]
+		res := m.resources()[0]
+		one := func(tok string, k int) {
+			n++
+			scn = append(scn, hx.M{"op": "new", "tr": float64(n), "mod": name, "var": map[string]interface{}{tok: float64(k)}},
+				hx.M{"op": "load", "scope": "*", "list": []interface{}{[]interface{}{tok, res}}})
+		}
+		for _, b := range []string{"R1", "R2", "R3"} {
+			one(b, 0)
+			k := 0
+			for _, d := range m.near() {
+				if d.base == b {
+					one(b+"a", k)
+					k++
+				}
+			}
+		}
+	}
+	return scn
+}
+
+func main() {
+	if len(os.Args) == 2 && os.Args[1] == "-describe" {
+		describe()
+		return
+	}
+	calibrate := len(os.Args) == 2 && os.Args[1] == "-calibrate"
+	if len(os.Args) < 3 && !calibrate {
+		hx.Fatal("usage: c13 scenarios.ndjson trace.ndjson | -describe | -calibrate")
+	}
+	var scn []hx.M
+	var err error
+	tracePath := os.DevNull
+	if calibrate {
+		scn = calibrationScenarios()
+	} else {
+		tracePath = os.Args[2]
+		if scn, err = hx.ReadNDJSON[hx.M](os.Args[1]); err != nil {
+			hx.Fatal("%v", err)
+		}
 	}
 	clk = hx.NewVClock(1e6)
 	clk.NoAdvance = true
@@ -905,12 +1322,12 @@ func main() {
 	outChain = api.BuildDefaultSlotChain()
 	outChain.AddRuleCheckSlot(outlier.DefaultSlot)
 	outChain.AddStatSlot(outlier.DefaultMetricStatSlot)
-	out := hx.NewTrace(os.Args[2])
+	out := hx.NewTrace(tracePath)
 	defer out.Close()
 
-	mods := map[string]module{"flow": flowMod{}, "isolation": isoMod{}, "hotspot": hotMod{}, "circuitbreaker": cbMod{},
-		"system": sysMod{}, "outlier": outMod{}}
 	var m module
+	var table map[string][]string
+	bad := 0
 	dead := false // a call of the running scenario panicked: the rest of it is not executed
 	for _, s := range scn {
 		op := hx.Str(s, "op")
@@ -933,10 +1350,21 @@ func main() {
 			perRes, rejects, ordered, _ := m.desc()
 			varn := hx.M{}
 			for k := range vars {
+				if isNear(k) { // the field change a near-equal variant carries
+					if hasNear(m, k[:2]) {
+						varn[k] = m.near()[nearIdx(m, k)].name
+					}
+					continue
+				}
 				varn[k] = variant(k, m.nvariants())
 			}
+			near := hx.M{}
+			for _, t := range nearToks {
+				near[t] = baseTok(t)
+			}
+			table = scenarioProbeTable(m)
 			out.Emit(hx.M{"op": "new", "tr": tr, "mod": hx.Str(s, "mod"), "perres": perRes, "rejects": rejects, "ordered": ordered,
-				"invalid": []string{"I1", "I2", "I3", "Nil"}, "res": m.resources(), "probes": m.probeTable(), "var": varn})
+				"invalid": []string{"I1", "I2", "I3", "Nil"}, "res": m.resources(), "probes": table, "near": near, "var": varn})
 		case "load", "clear":
 			if dead {
 				continue
@@ -1003,9 +1431,56 @@ func main() {
 			rec["all"] = all
 			rec["probes"] = probes
 			out.Emit(rec)
+			if calibrate { // the probes the lone token refuses against the table
+				tok := list[0].Tok
+				var got, want []string
+				for _, p := range probes {
+					if hx.Str(p, "res") != list[0].Res {
+						continue
+					}
+					hit, isHit := p["hit"].(bool)
+					if (isHit && hit) || (!isHit && hx.Str(p, "by") != "pass") {
+						got = append(got, hx.Str(p, "p"))
+						if !isHit && hx.Str(p, "by") != tok {
+							got[len(got)-1] += "(by " + hx.Str(p, "by") + ")"
+						}
+					}
+				}
+				for p, toks := range table {
+					for _, x := range toks {
+						if x == tok {
+							want = append(want, p)
+						}
+					}
+				}
+				sort.Strings(got)
+				sort.Strings(want)
+				name := tok
+				if i := nearIdx(m, tok); i >= 0 {
+					name = tok[:2] + " + " + m.near()[i].name
+				}
+				verdict := "ok"
+				if strings.Join(got, ",") != strings.Join(want, ",") || panicked {
+					verdict = fmt.Sprintf("DIFFERS: table says %v (panic %v)", want, panicked)
+					bad++
+				}
+				fmt.Printf("%-15s %-40s refuses %v  %s\n", modName(m), name, got, verdict)
+			}
 		default:
 			hx.Fatal("unknown op %q", op)
 		}
 	}
 	clearEverything()
+	if calibrate && bad > 0 {
+		hx.Fatal("%d tokens do not behave as the probe table says", bad)
+	}
+}
+
+func modName(m module) string {
+	for k, v := range mods {
+		if v == m {
+			return k
+		}
+	}
+	return "?"
 }
